@@ -77,6 +77,9 @@ enum NetRate {
     Edge(f64),
     Pair(f64),
     Both(f64, f64),
+    /// a combined rate whose members are two tables for the same edge (a toll and a credit): the members add up, whatever
+    /// their signs; `true` = the first member wrapped in a further combined rate
+    EdgeTwice(f64, f64, bool),
 }
 impl NetRate {
     /// surcharges for edge 1 and the pair (0, 1)
@@ -88,11 +91,13 @@ impl NetRate {
             NetRate::Edge(c) => e(*c),
             NetRate::Pair(c) => p(*c),
             NetRate::Both(a, b) => NetworkCostRate::Combined(vec![e(*a), p(*b)]),
+            NetRate::EdgeTwice(a, b, nested) => NetworkCostRate::Combined(vec![if *nested { NetworkCostRate::Combined(vec![e(*a)]) } else { e(*a) }, e(*b)]),
         }
     }
     fn edge(&self) -> f64 {
         match self {
             NetRate::Edge(c) | NetRate::Both(c, _) => *c,
+            NetRate::EdgeTwice(a, b, _) => *a + *b,
             _ => 0.0,
         }
     }
@@ -108,6 +113,7 @@ impl NetRate {
             NetRate::Edge(_) => "edge_lookup",
             NetRate::Pair(_) => "edge_pair_lookup",
             NetRate::Both(..) => "combined_lookup",
+            NetRate::EdgeTwice(..) => "combined_edge_lookups",
         }
     }
 }
@@ -395,7 +401,7 @@ fn all_vecs(vals: &[f64], k: usize) -> Vec<Vec<f64>> {
 fn configs(k: usize, tier: Tier) -> Vec<Cfg> {
     // one feature: every rate term of bounded shape; two and three features: the eight hand-picked mappings
     let rs = if k == 1 { rate_terms(tier.pick(2, 3)) } else { rates() };
-    let nets = [NetRate::Zero, NetRate::Edge(3.0), NetRate::Pair(100.0), NetRate::Both(3.0, 100.0), NetRate::Edge(-0.5)];
+    let nets = [NetRate::Zero, NetRate::Edge(3.0), NetRate::Pair(100.0), NetRate::Both(3.0, 100.0), NetRate::Edge(-0.5), NetRate::EdgeTwice(3.0, -2.0, false), NetRate::EdgeTwice(-2.0, 3.0, true)];
     let mut out = vec![];
     let weight_vecs = all_vecs(&WEIGHTS, k);
     let rate_idx = all_vecs(&(0..rs.len()).map(|i| i as f64).collect::<Vec<_>>(), k);
@@ -498,7 +504,7 @@ pub fn run(tier: Tier) -> i32 {
     finish(
         &info,
         total,
-        "state = one cost configuration (1-3 features, weight vector over {-1,0,0.5,1,2} with non-zero sum (sum aggregation: also scaled by 1e-12 and 3e-14, far below the floor), rate per feature from 8 mappings incl. nested combined (one feature: every rate term of bounded shape - atoms and Combined lists up to length 2/3 whose elements are atoms or nested Combined lists), network rate from {none, edge lookup, edge-pair lookup, combined, negative edge lookup}, sum/mul); transition = one call of traversal_cost / access_cost / cost_estimate on a (prev,next) state pair from {-2..2}^k, or one forward/reverse EdgeTraversal with synthetic access/traversal models applying chosen deltas; non-trivial = negative weight or non-raw rate",
+        "state = one cost configuration (1-3 features, weight vector over {-1,0,0.5,1,2} with non-zero sum (sum aggregation: also scaled by 1e-12 and 3e-14, far below the floor), rate per feature from 8 mappings incl. nested combined (one feature: every rate term of bounded shape - atoms and Combined lists up to length 2/3 whose elements are atoms or nested Combined lists), network rate from {none, edge lookup, edge-pair lookup, combined, negative edge lookup, combined toll and credit for one edge in either order (plain and nested)}, sum/mul); transition = one call of traversal_cost / access_cost / cost_estimate on a (prev,next) state pair from {-2..2}^k, or one forward/reverse EdgeTraversal with synthetic access/traversal models applying chosen deltas; non-trivial = negative weight or non-raw rate",
         true,
         json!({"features": "1..3", "state_values": VALS, "weights": WEIGHTS, "rate_mappings": 8, "network_rates": 5}),
         vec!["reference = closed-form sum over features of weight x rated change + surcharges, floored at 1e-10 (Cost::MIN_COST)".into()],
